@@ -216,6 +216,10 @@ func (idb *Client) getBuffer(ctx context.Context) (*bytes.Buffer, io.WriteCloser
 }
 
 func (idb *Client) releaseBuffer(buf *bytes.Buffer) {
+	if buf == nil {
+		// getBuffer returns nil once the context is done
+		return
+	}
 	buf.Reset()
 	idb.reqBufferSem <- buf
 }
